@@ -135,6 +135,11 @@ def pack_instance(rng, cls, nmax=12):
         v = v[:nmax]
         rng.shuffle(v)
         return C, v
+    if cls == "manybins":
+        # hundreds of bins in use (counts beyond typical internal constants such as 32, 64, 256): 300-1500 items of moderate size
+        C = rng.choice([10, 30, 100])
+        n = rng.choice([300, 600, 600, 1000, 1500])
+        return C, [rng.randint(1, C) for _ in range(n)]
     if cls == "repeat_large":
         # 12-16 items over 2-4 distinct values: bin-completion's branch bookkeeping (several queued branches, completed and pruned ones) is exercised here
         C = rng.randint(8, 40)
